@@ -1,116 +1,34 @@
 /-
-  C05 ⟵ C03: the order of the events `Http2Client` is handed (`Good`, `Good2` in Lemmas/C05_Sub.lean) is the order in
-  which the model of `HttpStream` (Model/C03.lean) emits `SendHttp(…, context.server)`: the request head first and
-  once, body data only while the request is being streamed, trailers only right before the end of the message, one end
-  of message, an error only after the head — for EVERY run of the model (any inputs, any addon actions, any
-  body-size verdicts, any interleaving with the `_paused_event_queue`).
+  C05 ⟵ C03: every continuation (`resume`, at any of the 18 suspension points) keeps the invariant `J` — assembled from
+  Lemmas/C05_C03R1..R4.lean (split so that each part compiles in about a minute and they build in parallel).
 -/
-import MitmVerif.Model.C03
-import MitmVerif.Lemmas.C03Inv
+import MitmVerif.Lemmas.C05_C03R1
+import MitmVerif.Lemmas.C05_C03R2
+import MitmVerif.Lemmas.C05_C03R3
+import MitmVerif.Lemmas.C05_C03R4
 namespace MitmVerif.C03
 
-/-- where the server-bound part of the stream is: nothing sent, request open, trailers sent, ended / cancelled -/
-inductive SP where
-  | s0 | s1 | s2 | sc | bad
-  deriving DecidableEq, Repr
-
-def srvStep : SP → Tag → SP
-  | .s0, .rh => .s1
-  | .s1, .rd => .s1
-  | .s1, .rt => .s2
-  | .s1, .re => .sc
-  | .s2, .re => .sc
-  | .s1, .rx => .sc
-  | .sc, .rx => .sc
-  | _, _ => .bad
-
-/-- the monitor over the emitted commands: only `SendHttp(…, context.server)` matters -/
-def adv (p : SP) : Out → SP
-  | .send false t => srvStep p t
-  | _ => p
-
-def pOK (cs : CS) (attached : Bool) : K → Bool
-  | .reqHeadersHook _ => cs == .waitHdr
-  | .streamConn false => cs == .waitHdr
-  | .streamConn true => cs == .consume
-  | .requestHookStream => cs == .stream
-  | .requestHook => cs == .done && !attached
-  | .respHeadersEmul => cs == .done && !attached
-  | .conn => cs == .done && !attached
-  | .respHeadersHook _ => attached
-  | .peErr false _ => cs == .errored
-  | .cbsHdr false => attached
-  | .cbsErr false => attached
-  | _ => true
-
-/-- nothing was sent yet exactly as long as no request head went to a server connection -/
-def pAtt : SP → Bool → Bool
-  | .s0, a => !a
-  | .s1, a => a
-  | .sc, a => a
-  | _, _ => false
-
-/-- the monitor never rejected, and trailers are always followed by the end of the message at once -/
-def pFine : SP → Bool
-  | .bad => false
-  | .s2 => false
-  | _ => true
-
-def isS1 : SP → Bool
-  | .s1 => true
-  | _ => false
-
-/-- the invariant that ties the monitor to the state of the stream (a function of the few fields it mentions) -/
-def JF (p : SP) (bad attached pt hasFlow : Bool) (cs : CS) (ss : SS) (paused : Option K) : Bool :=
-  pFine p &&
-  (bad ||
-  (pAtt p attached
-   && imp (paused.isSome || cs != .waitHdr) hasFlow
-   && imp (cs == .stream) (isS1 p)
-   && imp (cs == .waitHdr || cs == .consume || cs == .uninit) (!attached)
-   && imp (paused.isNone && !pt && cs == .done && !attached) (ss == .done || ss == .errored)
-   && (match paused with | none => true | some k => pOK cs attached k)))
-
-def J (p : SP) (c : Core) : Bool := JF p c.bad c.attached c.pt c.hasFlow c.cs c.ss c.paused
-
-@[simp] theorem adv_send_true (p : SP) (t : Tag) : adv p (.send true t) = p := rfl
-@[simp] theorem adv_hook (p : SP) (h : Hook) : adv p (.hook h) = p := rfl
-@[simp] theorem adv_drop (p : SP) : adv p .drop = p := rfl
-@[simp] theorem adv_getConn (p : SP) : adv p .getConn = p := rfl
-@[simp] theorem adv_openConn (p : SP) : adv p .openConn = p := rfl
-@[simp] theorem adv_closeServer (p : SP) : adv p .closeServer = p := rfl
-@[simp] theorem adv_crash (p : SP) : adv p .crash = p := rfl
-@[simp] theorem adv_streamStart (p : SP) : adv p .streamStart = p := rfl
-@[simp] theorem foldl_adv_ite (p : SP) (b : Bool) (o : Out) :
-    List.foldl adv p (if b = true then [o] else []) = if b = true then adv p o else p := by
-  cases b <;> rfl
-
-theorem J_fin (p : SP) (q : Bool) (w : W) : J p (W.fin q w).c = J p w.c := rfl
-
-syntax "j_tree" ident ident : tactic
-macro_rules
-  | `(tactic| j_tree $d $p) => `(tactic|
-      (simp only [resume, handlePE, peAfter, killedFire, killedSilent, sendResponse, startRequestStream, cbsErrFire,
-        connectFinish, flowDone, onReqHeaders, clientEvent, serverEvent, ↓reduceIte, Bool.false_eq_true, reduceCtorEq] <;>
-       (repeat' split) <;>
-       (simp [J, JF, pOK, pAtt, pFine, isS1, imp, fire, fireC, mk, crash, W.pre, outIf, connectSends, killFinishC, peRetC,
-          List.foldl_append, *] at * <;>
-        (first | done |
-          (cases $p:ident <;> cases hcs : Core.cs $d <;> cases hss : Core.ss $d <;>
-            simp_all [adv, srvStep, pAtt, pFine, isS1] <;> (first | done | grind))))))
-
-set_option maxHeartbeats 8000000 in
 theorem j_resume (p : SP) (d : Core) (k : K) (ok peek : Bool) (hp : d.paused = none) (hb : d.bad = false)
     (h : JF p false d.attached d.pt d.hasFlow d.cs d.ss (some k) = true) :
     J ((resume d k ok peek).out.foldl adv p) (resume d k ok peek).c = true := by
-  cases k
-  case peErr r ret => cases r <;> cases ret <;> j_tree d p
-  case streamConn b => cases b <;> j_tree d p
-  case cbsHdr b => cases b <;> j_tree d p
-  case cbsErr b => cases b <;> j_tree d p
-  case requestHookStream => cases hrt : d.reqTrailers <;> j_tree d p
-  case conn => cases hrt : d.reqTrailers <;> cases hrb : d.reqBody <;> j_tree d p
-  case responseHook a => cases a <;> cases hsb : d.respBody <;> cases hst : d.respTrailers <;> j_tree d p
-  all_goals j_tree d p
+  cases k with
+  | reqHeadersHook e => exact j_resume_reqHeadersHook p d e ok peek hp hb h
+  | streamConn b => exact j_resume_streamConn p d b ok peek hp hb h
+  | requestHookStream => exact j_resume_requestHookStream p d ok peek hp hb h
+  | requestHook => exact j_resume_requestHook p d ok peek hp hb h
+  | respHeadersEmul => exact j_resume_respHeadersEmul p d ok peek hp hb h
+  | conn => exact j_resume_conn p d ok peek hp hb h
+  | respHeadersHook e => exact j_resume_respHeadersHook p d e ok peek hp hb h
+  | responseHook a => exact j_resume_responseHook p d a ok peek hp hb h
+  | killedErr => exact j_resume_killedErr p d ok peek hp hb h
+  | peErr r ret => exact j_resume_peErr p d r ret ok peek hp hb h
+  | cbsHdr b => exact j_resume_cbsHdr p d b ok peek hp hb h
+  | cbsErr b => exact j_resume_cbsErr p d b ok peek hp hb h
+  | invHdr => exact j_resume_invHdr p d ok peek hp hb h
+  | invErr b => exact j_resume_invErr p d b ok peek hp hb h
+  | connectHook => exact j_resume_connectHook p d ok peek hp hb h
+  | connectOpen => exact j_resume_connectOpen p d ok peek hp hb h
+  | connectedHook => exact j_resume_connectedHook p d ok peek hp hb h
+  | connectErrHook => exact j_resume_connectErrHook p d ok peek hp hb h
 
 end MitmVerif.C03
